@@ -15,7 +15,7 @@ use serde_json::{json, Value};
 
 const STREAM: u64 = 10;
 
-const CLASSES: [&str; 22] = [
+const CLASSES: [&str; 26] = [
     "honest",
     "kb-removed",
     "jwt-char",
@@ -38,6 +38,10 @@ const CLASSES: [&str; 22] = [
     "jwt-other-key",
     "kb-garbage",
     "disc-empty-list",
+    "resigned-no-exp",
+    "resigned-expired",
+    "resigned-nbf-future",
+    "resigned-exp-non-numeric",
 ];
 
 pub fn run(ctx: &Ctx) -> Report {
@@ -253,6 +257,24 @@ fn one_case(ctx: &Ctx, case: u64, l: &mut Local) {
             }
             "kb-on-unbound" => t.kb = Some(api::sign_kb(halg, 0, &kb_payload(&t), Some("kb+jwt"))),
             "kb-garbage" => t.kb = Some((*r.pick(&["a.b.c", "null", "e30.e30.AAAA", "x"])).to_string()),
+            "resigned-no-exp" | "resigned-expired" | "resigned-nbf-future" | "resigned-exp-non-numeric" => {
+                // validly re-signed payload with a temporal fault (signing oracle); KB-JWT re-made
+                if let Ok(mut pl) = t.payload() {
+                    let now = api::now();
+                    match class {
+                        "resigned-no-exp" => {
+                            pl.as_object_mut().map(|o| o.remove("exp"));
+                        }
+                        "resigned-expired" => pl["exp"] = json!(now - 3600 - r.below(100_000)),
+                        "resigned-nbf-future" => pl["nbf"] = json!(now + 3600 + r.below(100_000)),
+                        _ => pl["exp"] = r.pick(&[json!("2100-01-01"), json!(null), json!(true), json!(-5)]).clone(),
+                    }
+                    t.jwt = api::sign_payload(cfg.alg, 0, &pl, None);
+                    if t.kb.is_some() {
+                        t.kb = Some(api::sign_kb(halg, 0, &kb_payload(&t), Some("kb+jwt")));
+                    }
+                }
+            }
             _ => {}
         }
         l.count(&format!("class.{class}"));
